@@ -381,12 +381,17 @@ def audit(prop):
     except OSError:
         pass
     # parse: "'name' depends on axioms: [a, b]" / "'name' does not depend on any axioms"
-    txt = out.replace('\n ', ' ').replace('\n  ', ' ')
+    # (names may themselves end in apostrophes; long axiom lists wrap over lines)
+    txt = re.sub(r'\n\s+', ' ', out)
     seen = {}
-    for m in re.finditer(r"'([^']+)' depends on axioms: \[([^\]]*)\]", txt, flags=re.S):
-        seen[m.group(1)] = [a.strip() for a in m.group(2).replace('\n', ' ').split(',') if a.strip()]
-    for m in re.finditer(r"'([^']+)' does not depend on any axioms", txt):
-        seen[m.group(1)] = []
+    for line in txt.splitlines():
+        m = re.match(r"^'(.+)' depends on axioms: \[([^\]]*)\]\s*$", line.strip())
+        if m:
+            seen[m.group(1)] = [a.strip() for a in m.group(2).split(',') if a.strip()]
+            continue
+        m = re.match(r"^'(.+)' does not depend on any axioms\s*$", line.strip())
+        if m:
+            seen[m.group(1)] = []
     for t in thms:
         short = t
         cands = [k for k in seen if k == t or k.endswith('.' + t) or t.endswith('.' + k)]
